@@ -128,7 +128,8 @@ func (f *MemFile) Chown(uid, gid int) error {
 	nd.Lock()
 	defer nd.Unlock()
 
-	if !nd.checkPermission(avfs.OpenWrite, f.vfs.User()) {
+	// the same rule as for Chown by path (ownership and group membership), not the write permission on the file.
+	if !nd.canSetOwner(uid, gid, f.vfs.User(), f.vfs.HasFeature(avfs.FeatIdentityMgr)) {
 		return &fs.PathError{Op: op, Path: f.name, Err: f.vfs.err.OpNotPermitted}
 	}
 
